@@ -130,7 +130,8 @@ def Node.applyChange (n : Node) (db : Db) (c : Change) : Node × Db × Resp × L
         | (db', r, ps) => (n, db', r.toResp, pushes ps)
       else (n, db, .set key old.value, [])
     | .arbiter =>
-      if !db.hasArbiter then (n, db, .error b!"An conflitct happend and there is no arbiter client not connected", [])
+      if Bytes.startsWith key Gen.securePrefix then (n, db, .versionError Gen.invalidVersionMsg key oldVersion version, [])
+      else if !db.hasArbiter then (n, db, .error b!"An conflitct happend and there is no arbiter client not connected", [])
       else
         let db1 := db.setValueVersion change.key old.value inConflict state old.vaddr old.kaddr old.opId
         let pend := db1.listConflictKeys change.key
